@@ -75,12 +75,23 @@ HOSTILE_SQL = [
 ]
 
 
+# definitions cut at every length (a text that ends in the middle of a token, an operator, a string, a comment)
+for _obj, _sql in (("ser", "CREATE TABLE ser(a, b, z, CHECK (a >= 1 AND b != 2 OR z <> 3 AND a << 1 | b & z), UNIQUE(a, b))"),
+                   ("ser_z", "CREATE INDEX ser_z ON ser(z) WHERE z > 1 AND z <= 5 OR z || 'x' == 'y' AND z % 2 = 1 /* c */ -- d")):
+    for _n in range(8, len(_sql)):
+        HOSTILE_SQL.append((_obj, _sql[:_n]))
+for _ch in "><|/%&=!*-+~.,(\"'[`;":
+    HOSTILE_SQL.append(("ser", "CREATE TABLE ser(a, b, z, CHECK (a " + _ch))
+    HOSTILE_SQL.append(("ser_z", "CREATE INDEX ser_z ON ser(z) WHERE z " + _ch))
+    HOSTILE_SQL.append(("ser", "CREATE TABLE ser(a DEFAULT " + _ch))
+
+
 def hostile_schemas(base_path, d):
     """copies of the sweep file whose sqlite_master.sql was replaced through writable_schema"""
     import sqlite3
     out = []
     for i, (obj, sql_) in enumerate(HOSTILE_SQL):
-        p = os.path.join(d, "hostile%03d.db" % i)
+        p = os.path.join(d, "hostile%04d.db" % i)
         shutil.copy(base_path, p)
         con = sqlite3.connect(p)
         con.execute("PRAGMA writable_schema=ON")
